@@ -71,7 +71,8 @@ func parseAndCompare(run *core.Run, txt string, modular bool, exp *openfgav1.Aut
 		// if it is not, renderer and grammar disagree - a harness problem, never a violation
 		if g, gerr := parserGrammar(); gerr == nil {
 			tk, lexErrs := lexNames(prepass(txt))
-			if lexErrs > 0 || !g.Accepts("main", tk) {
+			// the recogniser is cubic: texts of more than 3000 tokens (the very long lines) go without the guard
+			if len(tk) <= 3000 && (lexErrs > 0 || !g.Accepts("main", tk)) {
 				run.Count("renderings_not_derivable_from_grammar_on_disk", 1)
 				if run.Counter("renderings_not_derivable_from_grammar_on_disk") == 1 {
 					run.Inconclusive("a rendering is rejected by the parser and is not derivable from OpenFGAParser.g4 as it is on disk: renderer and grammar disagree: %q", txt)
